@@ -144,10 +144,12 @@ class PydanticGrammar(BaseGrammar):
         )
         # Keep the defaults of the fields,
         # otherwise the model would require elements that the grammar does not require.
+        # The default values are used instead of the default factories
+        # such that the model can still be pickled.
         fields = self.__model.model_fields
         for name, field in names_to_fields.items():
-            fields[name].default = field.default
-            fields[name].default_factory = field.default_factory
+            if not field.is_required():
+                fields[name].default = field.get_default(call_default_factory=True)
 
     def _update_from_names(  # noqa:D102
         self,
